@@ -127,7 +127,11 @@ def options_info(run, body, e, depth=0):
                     run.touch(cb)
                     return r
         return {"kind": "fn", "fn": x[1].fn}
-    if x[0] in ("arg",) or (x[0] == "field" and x[1][0] == "env"):
+    y = x
+    while y[0] in ("field", "deref", "ref"):
+        y = y[1]
+    if x[0] in ("arg",) or (x[0] == "field" and y[0] in ("env", "arg")):
+        # a parameter / capture, or a field of one (`let CatRequest { options, .. } = cat;`)
         return {"kind": "passthrough", "name": fmt(x)}
     return {"kind": "other", "expr": fmt(x)[:100]}
 
